@@ -155,6 +155,10 @@ pub fn id_pool() -> &'static Vec<Option<&'static str>> {
         for s in [" lead", "trail\n", "\tboth \r\n", "   ", "\n"] {
             v.push(Some(intern(s)));
         }
+        // mailbox-style IDs in several capitalisations (an ID is a byte string: nothing may be folded), a string and its prefix
+        for s in ["ALICE123@YAHOO.COM", "alice123@yahoo.com", "Alice@Example.COM", "alice@EXAMPLE.com", "node-2", "node", "a@B"] {
+            v.push(Some(intern(s)));
+        }
         v
     })
 }
